@@ -32,10 +32,10 @@ CHECKS = {
    design_ref="DESIGN.md §4.13",
    note="Trusted: Lean kernel (+propext, Classical.choice, Quot.sound), hand-written models encodeRaw/goEval/serve (tied by differential correspondence, not verified), go/parser+go/types as judge of the constant value, kin-openapi loader as the definition of 'spec file content'.",
    technique="Lean 4 proof by induction over the content + differential correspondence of the encoder/lexer model with the real generator output"),
- "C14": dict(category="other",
-   text="Every ServeHTTP and Parse() of the routing / security / parameter corpora runs under recover with a counting ResponseWriter: no panic and exactly one WriteHeader for ~2x10^5 requests per run incl. near-miss paths, paths without leading slash, nil / rejecting authenticators, repeated credentials. The Lean serve model is total and produces exactly one response event per request by construction, but checked-slice fault modelling (DESIGN §4.14) is not built yet, so no theorem is claimed: exploration with a model cross-check.",
-   design_ref="DESIGN.md §4.14", note=SERVE_NOTE + " Not covered: panics inside net/http / encoding/json internals, nil handler fields, malformed user response values.",
-   technique="recover-wrapped differential runs against the executable Lean serve model (no theorem claimed yet)"),
+ "C14": dict(category="exploration",
+   text="Lean theorem Goag.Serve.serve_exactly_one_response: for every api plan, configuration (any number of middlewares, any authenticator table, with or without not-found / spec / CORS handlers) and request, the modelled ServeHTTP pipeline emits exactly one response event (the model is total, so it has no panicking path; it is tied to the generated code by the corpora below). Absence of panics in the generated Go code itself is explored, not proved: every ServeHTTP and Parse() of the routing / security / parameter corpora (~2x10^5 requests per run incl. near-miss paths, paths without leading slash, nil / rejecting authenticators, repeated credentials), every document of the JSON corpus (valid, single-fault, discriminator absent / null / of every wrong kind) through the generated UnmarshalJSON, and raw requests with valid / truncated / empty / deeply nested bodies under declared and unknown Content-Length run under recover with a counting ResponseWriter: no panic, exactly one WriteHeader.",
+   design_ref="DESIGN.md §0.2, §4.14", note=SERVE_NOTE + " Not covered: panics inside net/http / encoding/json internals, nil handler fields, malformed user response values; the checked-slicing fault model of the design was not built.",
+   technique="Lean 4 proof of one-response on the total serve model + recover-wrapped differential runs over routing, JSON and request-body corpora"),
  "C16": dict(category="proof",
    text="Lean theorems middleware_trace / serve_routed / serve_unrouted_bypass / each_middleware_once: for middleware stacks of ANY length the model of ServeHTTP wraps the (security-wrapped) operation handler so that each middleware is entered exactly once, first-declared outermost, all authenticator and handler events strictly inside, with the matched template visible; spec-file, not-found and CORS requests produce no middleware event. Tied by traces of logging middlewares (0-4) on the routing corpus, including multi-request sessions on one API value.",
    design_ref="DESIGN.md §4.16", note=SERVE_NOTE,
@@ -69,11 +69,11 @@ CHECKS["C02"] = dict(category="proof",
    design_ref="DESIGN.md §0.2, §4.2", note=RESP_NOTE,
    technique="Lean 4 proof (implementers = documented on the emitted-type model) + complete go/types method-set comparison per generated program + per-constructor write validation")
 CHECKS["C06"] = dict(category="translation_validation",
-   text="Lean theorems encode_members_wellformed / writeItems_inv: for every item list (any number of plain and embedded members, empty ones included) the modelled member writer emits a comma-separated member sequence without leading, trailing or doubled commas that parses back to exactly the flattened members (and old_writer_* prove the pre-fix writer did not). The round trip itself (decode (encode v) = v) is checked per generated program: values built by reflection from the schema, MarshalJSON output must be valid, duplicate-free JSON, decode back to an equal value, and agree with the model toJ / dumpVal. The general round-trip theorem is not proved, so the claim is translation validation with a proved syntactic core.",
+   text="Lean theorems fields_roundtrip (object level of the round trip: for every property list with distinct names, decodeFields (toJFields vs) = vs with nothing left in the key map, given the same statement for each property's own value) and encode_members_wellformed / writeItems_inv: for every item list (any number of plain and embedded members, empty ones included) the modelled member writer emits a comma-separated member sequence without leading, trailing or doubled commas that parses back to exactly the flattened members (and old_writer_* prove the pre-fix writer did not). The round trip itself (decode (encode v) = v) is checked per generated program: values built by reflection from the schema, MarshalJSON output must be valid, duplicate-free JSON, decode back to an equal value, and agree with the model toJ / dumpVal. The induction over the whole schema tree is not done, so the claim is translation validation with proved object-level and syntactic cores.",
    design_ref="DESIGN.md §4.6", note=JSON_NOTE,
    technique="Lean 4 proof of the comma/flattening discipline of the emitted writer + executable codec model, differential round trips per generated type")
 CHECKS["C07"] = dict(category="translation_validation",
-   text="Per generated program: the canonical JSON tree of every encoded value (MarshalJSON, response bodies, client request bodies) equals the Lean model toJ and is judged by the independent executable reference Goag.JsonM.conforms written from the property text (required present, unset optional omitted, null only where nullable, declared names only unless additionalProperties, declared kinds, allOf merged, map entries under their own keys). toJ-conforms is not yet proved in general.",
+   text="Lean theorems toJFields_names_declared / toJFields_required_present / toJFields_unset_omitted / toJFields_required_unset_fails (every property list and value list): the modelled property writer emits only declared names, in declaration order, every required one, none for an unset optional, and refuses an unset required property. Conformance of nested values is validated per generated program: the canonical JSON tree of every encoded value (MarshalJSON, response bodies, client request bodies) equals the Lean model toJ and is judged by the independent executable reference Goag.JsonM.conforms written from the property text (required present, unset optional omitted, null only where nullable, declared names only unless additionalProperties, declared kinds, allOf merged, map entries under their own keys). toJ-conforms is not yet proved in general.",
    design_ref="DESIGN.md §4.7", note=JSON_NOTE,
    technique="executable Lean codec model + schema-conformance reference, differential validation per generated type")
 CHECKS["C08"] = dict(category="translation_validation",
@@ -81,7 +81,7 @@ CHECKS["C08"] = dict(category="translation_validation",
    design_ref="DESIGN.md §4.8", note=JSON_NOTE,
    technique="Lean 4 proofs over the modelled per-property decode loop + executable codec model, differential validation incl. single-fault mutants")
 CHECKS["C09"] = dict(category="translation_validation",
-   text="Per generated program with --client: seeded parameter structs (path, query scalar/array, header, JSON or raw body; optionals set and unset) are sent through the API's own LocalClient to the generated server in-process; the canonical dump of what the handler's Parse() returns must equal the dump of what was sent, and the recorded wire request must be accepted by the independent Lean reference for C04/C05 (typed value of the text on the wire). No general theorem (format/parse inverse laws for floats and times live in the Go library): validation per program.",
+   text="Lean theorems parseInt_formatInt / parseBool_formatBool: for the closed-form leaves (decimal integers of the three widths, booleans) what the client formats the server parses back to the same value, for every value in range; floats, times, URL escaping and header canonicalisation are library behaviour and validated. Per generated program with --client: seeded parameter structs (path, query scalar/array, header, JSON or raw body; optionals set and unset) are sent through the API's own LocalClient to the generated server in-process; the canonical dump of what the handler's Parse() returns must equal the dump of what was sent, and the recorded wire request must be accepted by the independent Lean reference for C04/C05 (typed value of the text on the wire). One call in six goes through a real loopback HTTP server and net/http's client.",
    design_ref="DESIGN.md §4.9", note=RESP_NOTE,
    technique="client->server round trips per generated program, compared by canonical dumps; Lean reference for the wire request")
 CHECKS["C10"] = dict(category="translation_validation",
